@@ -44,3 +44,34 @@ Definition run_drop (H : net) (fl : bflags) (d : drops) (ifl : iflags) : tok :=
 
 Definition run_drops (H : net) (vs : list (bflags * drops * iflags)) : tok :=
   L (tnet_plain H :: ((λ v, run_drop H v.1.1 v.1.2 v.2) <$> vs) ++ [tnet_plain H]).
+
+(** * The species graph after the caller removed attributes (species_graph_to_hypergraph's fall-backs)
+        label            absent -> str(node)                    (node ids of an exported graph ARE the labels)
+        rules            absent -> default_rule
+        stoich_r_map /
+        stoich_p_map     absent -> the legacy per-arc values stoich_r / stoich_p (minimum over the reactions of the arc)
+        stoich_r/_p      absent too -> 1
+        mol              absent -> no label
+    (`via` absent: ids synthesised from hash(), outside the model.)  In the record [sarc] an absent map is the empty map,
+    an absent rule set the empty set, an absent legacy value 1 — the importer cannot tell the difference. *)
+Record sdrops := SDrops { sd_label : bool; sd_kind : bool; sd_mol : bool; sd_rules : bool; sd_maps : bool; sd_legacy : bool }.
+Definition sdrop_node (d : sdrops) (nd : snode) : snode :=
+  SNode (if sd_label d then None else sn_label nd) (if sd_kind d then None else sn_kind nd) (if sd_mol d then None else sn_mol nd).
+Definition sdrop_arc (d : sdrops) (a : sarc) : sarc :=
+  SArc (sa_via a) (if sd_rules d then ∅ else sa_rules a)
+       (if sd_legacy d then 1%Z else sa_r a) (if sd_legacy d then 1%Z else sa_p a)
+       (if sd_maps d then ∅ else sa_rmap a) (if sd_maps d then ∅ else sa_pmap a).
+Definition sdrop_attrs (d : sdrops) (G : sgraph) : sgraph := SGraph (sdrop_node d <$> g_nodes G) (sdrop_arc d <$> g_arcs G).
+
+(** the rule of a rebuilt reaction is an arbitrary element of its merged rule set: shown when that set has at most one
+    element (empty: the default rule) *)
+Definition run_sdrop (H : net) (include_mol : bool) (d : sdrops) (mol_attr : bool) (default_rule : string) : tok :=
+  let G := sdrop_attrs d (hypergraph_to_species_graph include_mol H) in
+  let ents := (species_graph_entries G).1 in
+  let rule_of (e : string) (rx : rxn) :=
+    let U : gset string := default ∅ (se_rules <$> ents !! e) in
+    L [tstr (if decide (size U ≤ 1)%nat then r_rule rx else ""); tbool (bool_decide (r_rule rx ∈ U))] in
+  L [tsgraph G; tres (tnet16 rule_of (λ s, sort_strings (order s))) (species_graph_to_hypergraph pick_first default_rule mol_attr G)].
+
+Definition run_sdrops (H : net) (vs : list (bool * sdrops * bool * string)) : tok :=
+  L (tnet_plain H :: ((λ v, run_sdrop H v.1.1.1 v.1.1.2 v.1.2 v.2) <$> vs) ++ [tnet_plain H]).
